@@ -8,6 +8,7 @@ transfer_model raises iff some member is time / a state / a derivative / an
 algebraic variable / a non-fixed input; for accepted models
 delay_arguments_function is evaluated at drawn points and compared with the
 reference evaluator working on the abstract expressions."""
+import re
 import numpy as np
 from hypothesis import strategies as st
 
@@ -150,7 +151,12 @@ def build_model(case):
     ]
     for k, d in enumerate(case["delays"]):
         call = ["call", "delay", d["expr"], dur_expr(d["dur"])]
-        if not d["loop"]:
+        if d.get("array"):
+            # a whole vector / matrix is delayed by one call
+            for nm in ("am", "bm", "ym"):
+                vars_.append(v("%s%d" % (nm, k), dims=list(d["array"])))
+            eqs.append(["eq", ["var", "ym%d" % k], call])
+        elif not d["loop"]:
             vars_.append(v("y%d" % k))
             eqs.append(["eq", ["var", "y%d" % k], call])
         else:
@@ -201,6 +207,17 @@ def make_point(case, rs):
         names.append(("z%d" if d["loop"] else "y%d") % k)
         if d["loop"] and d["sibling"]:
             names.append("w%d" % k)
+    for k, d in enumerate(case["delays"]):
+        if d.get("array"):
+            names.remove("y%d" % k)
+            for nm in ("am%d" % k, "bm%d" % k, "ym%d" % k):
+                shape = tuple(d["array"])
+                env[nm] = rs.uniform(0.5, 3.0, size=shape)
+                der[nm] = rs.uniform(0.5, 3.0, size=shape)
+                for idx in np.ndindex(*shape):
+                    key = "%s[%s]" % (nm, ",".join(str(i + 1) for i in idx))
+                    env[key] = float(env[nm][idx])
+                    der[key] = float(der[nm][idx])
     for name in names:
         if name.startswith("y"):
             env[name] = float(rs.uniform(0.5, 3.0))
@@ -225,6 +242,16 @@ def reference(case, env, der):
     out = []
     for d in case["delays"]:
         de = dur_expr(d["dur"])
+        if d.get("array"):
+            val = np.array(D.E(env, "casadi", {}, der=der).ev(d["expr"]), dtype=float)
+            assert val.shape == tuple(d["array"]), (val.shape, d["array"])
+            dv = [evalnum(de, env, der)]
+            if ev_opt:
+                lookup = {tuple(i + 1 for i in idx) + (1,) * (2 - val.ndim): float(val[idx]) for idx in np.ndindex(*val.shape)}
+                out += [([lookup[key]], dv, "array", lookup) for key in sorted(lookup)]
+            else:
+                out.append((list(val.reshape(-1)), dv, "array", None))
+            continue
         if not d["loop"]:
             out.append(([evalnum(d["expr"], env, der)], [evalnum(de, env, der)], "scalar"))
             continue
@@ -271,7 +298,10 @@ def _check_case(ctx, case):
     folder = ctx.scratch / "c22_model"
     folder.mkdir(exist_ok=True)
     (folder / "M.mo").write_text(text)
-    options = dict(case["opts"], cache=False, codegen=False)
+    for stale in folder.glob("*.pymoca_cache*"):
+        stale.unlink()
+    use_cache = bool(case.get("cache"))
+    options = dict(case["opts"], cache=use_cache, codegen=False)
     bad = expected_rejected(case)
     model, exc = None, None
     try:
@@ -280,7 +310,23 @@ def _check_case(ctx, case):
         if pymoca_frame(e) == "?":
             raise
         exc = e
-    where = "%s\noptions %r\n%s" % (describe(case), case["opts"], text)
+    where = "%s\noptions %r cache=%r\n%s" % (describe(case), case["opts"], use_cache, text)
+    if use_cache:
+        # the same request again: the verdict must not depend on what the first call left in the folder
+        model2, exc2 = None, None
+        try:
+            model2 = api.transfer_model(str(folder), "M", options)
+        except Exception as e:  # noqa: BLE001
+            if pymoca_frame(e) == "?":
+                raise
+            exc2 = e
+        if (exc is None) != (exc2 is None):
+            raise Violation(
+                "verdict_changes_on_repeat:%s_then_%s" % ("accepted" if exc is None else "rejected", "accepted" if exc2 is None else "rejected"),
+                "first transfer_model: %s, second: %s\n%s" % (
+                    "returned" if exc is None else type(exc).__name__, "returned %s" % type(model2).__name__ if exc2 is None else type(exc2).__name__, where))
+        if model2 is not None:
+            model = model2  # the delay arguments are checked on what a caller gets from the cache
     labels = labels_of(case, bad)
     nontrivial = any(d["loop"] for d in case["delays"]) or any(
         set(dur_cats(d["dur"])) & set(DISALLOWED) and set(dur_cats(d["dur"])) & set(ALLOWED) for d in case["delays"]
@@ -324,7 +370,13 @@ def _check_case(ctx, case):
             env[name] = np.full(inputs[name].symbol.numel(), 7.0 + j)
         args = D.model_args(model, env, der, f)
         out = guarded(f.call, args, where="eval_delay_arguments")
-        for k, (evals, dvals, kind) in enumerate(ref):
+        for k, entry in enumerate(ref):
+            evals, dvals, kind = entry[:3]
+            if len(entry) > 3 and entry[3] is not None:
+                # element of an expanded array delay: pair by the subscripts in the delay state's name
+                mt = re.search(r"\[(\d+),(\d+)\]$", delay_states[k])
+                if mt is not None and (int(mt.group(1)), int(mt.group(2))) in entry[3]:
+                    evals = [entry[3][(int(mt.group(1)), int(mt.group(2)))]]
             got_e = list(np.array(ca.DM(out[2 * k]), dtype=float).reshape(-1))
             got_d = list(np.array(ca.DM(out[2 * k + 1]), dtype=float).reshape(-1))
             if len(got_e) != len(evals) or not all(close(a, b) for a, b in zip(got_e, evals)):
@@ -333,7 +385,9 @@ def _check_case(ctx, case):
             if len(got_d) != len(dvals) or not all(close(a, b) for a, b in zip(got_d, dvals)):
                 raise Violation("delay_duration_value:" + kind, "delay %d (%s): duration output %r, reference %r\n%s" % (k, delay_states[k], got_d, dvals, where))
     labels.append("accepted_checked")
-    kinds = {("checked:loop_expanded" if case["opts"]["expand_vectors"] else "checked:loop_vector") if d["loop"] else "checked:scalar" for d in case["delays"]}
+    kinds = {("checked:loop_expanded" if case["opts"]["expand_vectors"] else "checked:loop_vector") if d["loop"] else
+             ("checked:array%dd_%s" % (len(d["array"]), "expanded" if case["opts"]["expand_vectors"] else "whole") if d.get("array") else "checked:scalar")
+             for d in case["delays"]}
     labels += sorted(kinds)
     if len({tuple(r[1]) for r in ref}) >= 2:
         labels.append("checked:distinct_durations")
@@ -341,12 +395,12 @@ def _check_case(ctx, case):
 
 
 def labels_of(case, bad):
-    labels = ["expected:" + ("rejected" if bad else "accepted"), "delays:%d" % len(case["delays"])]
+    labels = ["expected:" + ("rejected" if bad else "accepted"), "delays:%d" % len(case["delays"]), "cache:%s" % bool(case.get("cache"))]
     labels += ["opt:%s=%s" % (k, case["opts"][k]) for k in OPTION_NAMES]
     seen = set()
     for d in case["delays"]:
         cats = dur_cats(d["dur"])
-        where = "loop" if d["loop"] else "scalar"
+        where = "loop" if d["loop"] else ("array" if d.get("array") else "scalar")
         seen.add("delay:" + where)
         for c in cats:
             seen.add("cat:" + c)
@@ -495,11 +549,17 @@ def case_strategy(draw, ctx=None):
             d["expr"] = draw(loop_expr(n, lo, hi, allow_free))
             if known_idx:
                 ctx.exclude(F_IDXDUR)
+        elif draw(st.integers(0, 3)) == 0:
+            shape = draw(st.sampled_from([[2, 2], [2, 3], [3, 2], [3, 1], [1, 3], [n]]))
+            d["array"] = shape
+            a, b = ["var", "am%d" % k], ["var", "bm%d" % k]
+            coef = ["real", draw(st.sampled_from(["0.5", "2.0", "3.0"]))]
+            d["expr"] = draw(st.sampled_from([["bin", "*", coef, a], ["bin", "+", a, b], ["bin", "-", ["bin", "*", coef, a], b]]))
         else:
             d["expr"] = draw(scalar_expr(n))
         d["dur"] = draw(duration(n, loop, forced, not known_idx))
         delays.append(d)
-    return {"n": n, "opts": opts, "delays": delays, "seed": draw(st.integers(0, 2**31 - 1))}
+    return {"n": n, "opts": opts, "delays": delays, "seed": draw(st.integers(0, 2**31 - 1)), "cache": draw(st.integers(0, 3)) == 0}
 
 
 def shard(ctx):
@@ -511,7 +571,7 @@ def replay(ctx, case):
 
 
 MANIFEST = dict(
-    text="Generated flat models with delay() calls outside and inside for-loops, whose durations are "
+    text="Generated flat models with delay() calls outside for-loops (scalar, and whole vectors or matrices delayed by one call) and inside for-loops, whose durations are "
     "positive-coefficient sums of products over variables of every category (so dependence cannot cancel), are "
     "compiled with transfer_model under the option sets that keep variable categories.  The check demands an "
     "exception exactly when a duration contains time, a state, a derivative, an algebraic variable or a non-fixed "
